@@ -7,6 +7,7 @@ package main
 // the old policy, the new one differs.
 
 import (
+	"encoding/json"
 	"fmt"
 	"os"
 	"path/filepath"
@@ -14,7 +15,9 @@ import (
 	"time"
 
 	"verif/internal/ev"
+	mcisco "verif/internal/model/cisco"
 	"verif/internal/run"
+	"verif/internal/sim"
 )
 
 func c13Interleavings(env *run.Env, rep *ev.Reporter) {
@@ -134,4 +137,219 @@ func c13Interleavings(env *run.Env, rep *ev.Reporter) {
 				})
 		}
 	})
+}
+
+// ---------------------------------------------------------------------
+// Session tier: the status file is written by complete do-approve
+// sessions (approve / compare, plain and --brief, an approve whose save
+// fails) against the CLI simulator backed by the device model, which
+// keeps the device state from session to session; manual drift changes
+// the model directly, a new policy adds a route to the code. After every
+// event the real missing-approve is judged against the same reference as
+// in the exhaustive tier: the latest conclusive observation (a session in
+// which the device accepted everything and confirmed the save, or a
+// compare, whose result is decided by the harness' own equivalence of
+// model and target, not by what the tool printed).
+
+var c13SessionEvents = []string{"approve", "approve-brief", "approve-savefail", "compare", "compare-brief", "drift", "newpolicy"}
+
+func c13Sessions(env *run.Env, rep *ev.Reporter, tier string) {
+	depth := 3
+	if tier == "thorough" {
+		depth = 4
+	}
+	var seqs [][]string
+	var gen func(prefix []string)
+	gen = func(prefix []string) {
+		if len(prefix) == depth {
+			seqs = append(seqs, append([]string{}, prefix...))
+			return
+		}
+		for _, e := range c13SessionEvents {
+			gen(append(prefix, e))
+		}
+	}
+	gen(nil)
+	types := []string{"ios", "asa"}
+	env.Parallel(len(seqs)*len(types), func(i int) {
+		c13RunSessions(env, rep, types[i%len(types)], seqs[i/len(types)])
+	})
+}
+
+func c13RunSessions(env *run.Env, rep *ev.Reporter, typ string, seq []string) {
+	sc := liveScenarios(typ)[0]
+	lc := newLiveCase(sc, "do-approve", false)
+	dir := env.CaseDir()
+	defer os.RemoveAll(dir)
+	home, base := lc.prepare(env, dir)
+	dev := mcisco.Load(typ, sc.Device["config"])
+	code := sc.Files["router"]
+	polN := 1
+	info, _ := os.ReadFile(filepath.Join(base, "policies/p1/code/router.info"))
+	var obs struct {
+		has, eq bool
+		code    string
+		via     string
+	}
+	route := func(net int, n int) string {
+		if typ == "asa" {
+			return fmt.Sprintf("route outside 10.%d.%d.0 255.255.255.0 10.9.9.1", net, n)
+		}
+		return fmt.Sprintf("ip route 10.%d.%d.0 255.255.255.0 10.1.2.3", net, n)
+	}
+	for k, e := range seq {
+		id := fmt.Sprintf("sessions/%s/%s", typ, strings.Join(seq[:k+1], "."))
+		// Every distinct prefix is judged once: in the sequence that
+		// continues it with the first event only.
+		judge := true
+		for _, later := range seq[k+1:] {
+			if later != c13SessionEvents[0] {
+				judge = false
+			}
+		}
+		switch e {
+		case "drift":
+			dev.EnterConfig()
+			dev.Exec(route(99, k+1))
+			dev.LeaveConfig()
+		case "newpolicy":
+			polN++
+			code += route(77, polN) + "\n"
+			pd := filepath.Join(base, fmt.Sprintf("policies/p%d", polN))
+			os.MkdirAll(filepath.Join(pd, "code"), 0755)
+			os.MkdirAll(filepath.Join(pd, "log"), 0755)
+			os.WriteFile(filepath.Join(pd, "code/router"), []byte(code), 0644)
+			os.WriteFile(filepath.Join(pd, "code/router.info"), info, 0644)
+			cur := filepath.Join(base, "policies/current")
+			os.Remove(cur)
+			os.Symlink(fmt.Sprintf("p%d", polN), cur)
+		default:
+			compare := strings.HasPrefix(e, "compare")
+			spec := *lc.Cli
+			spec.Config = dev.Dump()
+			spec.UseModel = true
+			spec.Hostname, spec.Password = "router", "secret"
+			spec.Events = filepath.Join(dir, fmt.Sprintf("events.%d.log", k))
+			spec.Modified = k%2 == 0
+			if e == "approve-savefail" {
+				spec.WriteMem = "no-ok"
+				if typ == "ios" {
+					spec.WriteMem = "too-large"
+				}
+			}
+			specFile := filepath.Join(dir, fmt.Sprintf("spec.%d.json", k))
+			spec.Write(specFile)
+			lc.Compare = compare
+			lc.Brief = strings.HasSuffix(e, "-brief")
+			lc.TestTime = c13Time(k + 1)
+			argv, envv := lc.command(env, dir, home, base, filepath.Join(env.Verif, ".work/bin/simcli")+" "+specFile)
+			res := run.Exec(run.Cmd{Argv: argv, Dir: dir, Env: envv, Timeout: 60 * time.Second})
+			waitSimEnd(spec.Events, 500*time.Millisecond)
+			events := sim.ReadEvents(spec.Events)
+			rep.Count("session_runs_"+e, 1)
+			if isCrash(res) || res.TimedOut {
+				rep.Case(id, false)
+				rep.Inconclusive("sessions:tool-crash-or-timeout(decided by C20/C09)")
+				return
+			}
+			changes, rejected, saved := 0, false, false
+			dev.EnterConfig()
+			for _, x := range events {
+				if x.Class == "save" && strings.HasPrefix(x.Verdict, "accepted") {
+					saved = true
+				}
+				if x.Mode != "config" || (x.Class != "config-change" && x.Class != "mode") || x.Raw == "end" || x.Raw == "" {
+					continue
+				}
+				if x.Class == "config-change" {
+					changes++
+				}
+				if strings.HasPrefix(x.Verdict, "accepted") {
+					dev.ExecRaw(x.Raw)
+				} else {
+					rejected = true
+				}
+			}
+			dev.LeaveConfig()
+			if os.Getenv("VERIF_DEBUG") != "" {
+				fmt.Fprintf(os.Stderr, "DEBUG %s exit=%d changes=%d rejected=%v saved=%v ended=%v\nstderr: %s\n", id, res.Exit, changes, rejected, saved, res.Stderr)
+				for _, x := range events {
+					fmt.Fprintf(os.Stderr, "   %d %s [%s/%s] %s\n", x.Ord, x.Raw, x.Class, x.Mode, x.Verdict)
+				}
+			}
+			tgt := mcisco.Load(typ, code)
+			eqc, _ := ciscoEquiv(dev, tgt)
+			equal := eqc == nil
+			if compare {
+				if changes > 0 {
+					rep.Case(id, false)
+					rep.Inconclusive("sessions:compare-changed-the-device(decided by C11)")
+					return
+				}
+				if res.Exit != 0 {
+					rep.Case(id, false)
+					rep.Inconclusive(fmt.Sprintf("sessions:compare-session-failed(exit=%d)", res.Exit))
+					return
+				}
+				obs.has, obs.eq, obs.code, obs.via = true, equal, code, "compare"
+			} else {
+				ok := !rejected && (changes == 0 || (saved && e != "approve-savefail"))
+				if ok && !equal {
+					rep.Case(id, false)
+					rep.Inconclusive("sessions:approve-accepted-but-not-equivalent(decided by C01/C02)")
+					return
+				}
+				if ok != (res.Exit == 0) {
+					rep.Anomaly(fmt.Sprintf("sessions:%s:approve-exit-status-%d-with-session-ok=%v(decided by C09)", typ, res.Exit, ok))
+				}
+				if ok {
+					obs.has, obs.eq, obs.code, obs.via = true, true, code, "approve"
+				}
+			}
+		}
+		if !judge {
+			continue
+		}
+		r := run.Exec(run.Cmd{Argv: []string{env.Prog("missing-approve")}, Dir: dir, Env: run.BaseEnv(home), Timeout: 30 * time.Second})
+		listed := false
+		for _, l := range strings.Split(r.Stdout, "\n") {
+			if strings.TrimSpace(l) == "router" {
+				listed = true
+			}
+		}
+		rep.Case(id, obs.has)
+		rep.Count("session_histories_judged", 1)
+		want := "omit"
+		if !obs.has || !obs.eq || obs.code != code {
+			want = "list"
+		}
+		rep.Count("session_expect_"+want, 1)
+		clause := ""
+		switch {
+		case r.Exit != 0:
+			clause = "exit-nonzero"
+		case want == "list" && !listed:
+			clause = "must-list"
+		case want == "omit" && listed:
+			clause = "must-omit"
+		}
+		if clause == "" {
+			continue
+		}
+		st, _ := os.ReadFile(filepath.Join(base, "status/router"))
+		ks := &c13State{FS: map[string]string{}, HasObs: obs.has, ObsEq: obs.eq, ObsVia: obs.via}
+		if len(st) > 0 {
+			ks.FS["status/"+c13Dev] = string(st)
+		}
+		key := clause + ":" + c13SlotKey(ks)
+		hist := append([]string{}, seq[:k+1]...)
+		rep.Violation(key, fmt.Sprintf("%s after the %s session history %v (real do-approve sessions against the simulated device; latest conclusive observation: %s equal=%v, policy code %s current code); missing-approve printed %q; status file: %s",
+			clause, typ, hist, obs.via, obs.eq, act(obs.code == code, "==", "!="), strings.TrimSpace(r.Stdout), strings.TrimSpace(string(st))),
+			func(d string) {
+				b, _ := json.Marshal(map[string]any{"tier": "sessions", "type": typ, "history": hist})
+				os.WriteFile(filepath.Join(d, "history.json"), b, 0644)
+				os.WriteFile(filepath.Join(d, "status.json"), st, 0644)
+			})
+		return
+	}
 }
